@@ -15,6 +15,11 @@ pub enum Entry {
     Sampled { mi: usize, event: usize, next: usize },
     /// raw value returned by the distribution sampler, before clamping (f64 bits)
     DistRaw { bits: u64 },
+    /// `update_counter` finished its arithmetic for machine `mi`: values before and after
+    Counter { mi: usize, a_old: u64, a_new: u64, b_old: u64, b_new: u64 },
+    /// the per-state limit of machine `mi` was assigned: `decrement` is false when it was
+    /// (re)sampled on entering a state, true when it was decremented
+    Limit { mi: usize, value: u64, decrement: bool },
 }
 
 thread_local! {
